@@ -377,6 +377,17 @@ let handle (line : string) : string =
             | Ok _ -> "(bad-use)"
             | other -> show_res (fun _ -> "") other)
        | _ -> "(no-transformer)")
+  | ["RUNBIN"; dir; file] ->
+      (* `ruschm FILE`: a fresh interpreter without the standard library *)
+      let fs = !w_fs in
+      reset (); w_fs := fs;
+      ignore (new_inst 0 false);
+      let (rr, _) = run_program !w_fs cwd !efuel_ref (str_of_string (hex_decode dir))
+          [str_of_string (hex_decode file)] (ctx_of 0) in
+      let diag = (match rr.rr_diag with
+        | None -> "none"
+        | Some (k, l) -> show_loc l) in
+      Printf.sprintf "(run out=%s status=%d diag=%s)" (hex_of_str rr.rr_stdout) (int_of_z rr.rr_status) diag
   | ["BRACKET"; h] -> show_bool (check_bracket_closed (str_of_string (hex_decode h)))
   | "REPL" :: hs ->
       (* a REPL session on a fresh standard interpreter: input lines (hex, "-" for an empty line) *)
